@@ -456,7 +456,16 @@ def simpleOp (l : Line) : M Unit := do
       let d ← tokInt d
       setS (advance c.s d)
       resolveOrFail [] atomics "adv"
-  | ["cleanup"] => maintenanceRan; resolveOrFail [] atomics "cleanup"
+  | ["cleanup"] =>
+      maintenanceRan; resolveOrFail [] atomics "cleanup"
+      -- C13: maintenance at time T has removed every entry whose deadline lies more than one timer tick before T
+      -- (built-in calculators only: reads never shorten a deadline)
+      let s ← getS
+      let builtin := match cfg.expiry with | .creating _ | .writing _ | .accessing _ => true | _ => false
+      if builtin && !c.deferred then
+        match s.m.find? (fun p => p.2.exp + 1073741824 < s.now) with
+        | some p => fail s!"C13: after CleanUp at {s.now} key {p.1} (deadline {p.2.exp}, {s.now - p.2.exp} ns ago) is still physically present and its Expiration event has not been delivered"
+        | none => pure ()
   | ["all"] => resolveOrFail [(.snapshot "all", expectRes)] atomics "all"
   | ["keys"] => resolveOrFail [(.snapshot "keys", expectRes)] atomics "keys"
   | ["values"] => resolveOrFail [(.snapshot "values", expectRes)] atomics "values"
